@@ -852,11 +852,203 @@ def _short(b):
     return struct.pack(">h", len(b)) + b
 
 
-def e2e_round(members, tp):
+# ---- scripted metadata broker for the REAL KafkaClient._load_topic_partitions (client.py:396-466) ----
+# A script is a list of steps; step k shapes the answer to the k-th metadata request (the last step repeats):
+#   {"omit": [topics left out of the answer], "err": {topic: error code (answered without partitions)},
+#    "err_parts": {topic: error code (answered WITH its partitions)}, "empty": [topics answered error 0, no partitions],
+#    "extra": [[topic nobody asked for, [partitions]]], "seed": n (order of topics and of partitions in the answer)}
+# Every other requested topic is answered with error 0 and its partitions from the truth map, listed shuffled.
+def md_response(corr, topics):
+    """MetadataResponse v0 bytes: one broker, topics = [(name, error, [partition ids])]"""
+    out = struct.pack(">ii", corr, 1) + struct.pack(">i", 1) + _short(b"broker1") + struct.pack(">i", 9092)
+    out += struct.pack(">i", len(topics))
+    for name, err, parts in topics:
+        out += struct.pack(">h", err) + _short(name.encode("ascii")) + struct.pack(">i", len(parts))
+        for p in parts:
+            out += struct.pack(">hiii", 0, p, 1, 1) + struct.pack(">i", 1) + struct.pack(">ii", 1, 1)
+    return out
+
+
+def parse_md_request(req):
+    """(api_key, correlation id, [topic names]) of MetadataRequest v0 bytes"""
+    api_key, _ver, corr = struct.unpack(">hhi", req[:8])
+    (n,) = struct.unpack(">h", req[8:10])
+    cur = 10 + max(n, 0)
+    (nt,) = struct.unpack(">i", req[cur:cur + 4])
+    cur += 4
+    names = []
+    for _ in range(nt):
+        (n,) = struct.unpack(">h", req[cur:cur + 2])
+        names.append(req[cur + 2:cur + 2 + n].decode("ascii"))
+        cur += 2 + n
+    return api_key, corr, names
+
+
+def script_answer(step, asked, truth):
+    rr = random.Random(step.get("seed", 0))
+    names = [t for t in asked if t not in step.get("omit", ())]
+    rr.shuffle(names)
+    ans = []
+    for t in names:
+        ps = list(truth.get(t, []))
+        rr.shuffle(ps)
+        if t in step.get("err", {}):
+            ans.append((t, step["err"][t], []))
+        elif t in step.get("err_parts", {}):
+            ans.append((t, step["err_parts"][t], ps))
+        elif t in step.get("empty", ()):
+            ans.append((t, 0, []))
+        elif t not in truth:
+            ans.append((t, 3, []))                                      # UNKNOWN_TOPIC_OR_PARTITION
+        else:
+            ans.append((t, 0, ps))
+    for t, ps in step.get("extra", ()):
+        ans.insert(rr.randint(0, len(ans)), (t, 0, list(ps)))
+    return ans
+
+
+def scripted_client(clock, truth, script, log):
+    """a REAL afkak KafkaClient whose broker-agnostic transport is the scripted broker; log gets one entry per
+    request: {"asked": [...], "answer": [(name, err, parts)]}"""
+    from twisted.internet import defer
+    from afkak.client import KafkaClient
+    client = KafkaClient("broker1:9092", reactor=clock, enable_protocol_version_discovery=False)
+
+    def unaware(correlation_id, request):
+        api_key, corr, asked = parse_md_request(bytes(request))
+        if api_key != 3:
+            return defer.fail(RuntimeError("unexpected api key %r in a partition lookup" % (api_key,)))
+        step = script[min(len(log), len(script) - 1)]
+        ans = script_answer(step, asked, truth)
+        log.append({"asked": asked, "answer": ans})
+        return defer.succeed(md_response(corr, ans))
+
+    client._send_broker_unaware_request = unaware
+    return client
+
+
+def pump(clock, done, limit=40):
+    """fire timers in deadline order until done() or nothing is armed; returns the number of steps"""
+    n = 0
+    while not done() and n < limit:
+        calls = clock.getDelayedCalls()
+        if not calls:
+            break
+        clock.advance(max(0.0, min(c.getTime() for c in calls) - clock.seconds()))
+        n += 1
+    return n
+
+
+def good_answer(entry, requested):
+    """did this answer give every requested topic error 0 and at least one partition"""
+    got = {t: (err, ps) for t, err, ps in entry["answer"]}
+    return all(t in got and got[t][0] == 0 and got[t][1] for t in requested)
+
+
+def omitted_in(log, requested):
+    """requested topics that some answer left out although the request (or the caller) named them"""
+    out = set()
+    for e in log:
+        out.update(set(requested) - {t for t, _e, _p in e["answer"]})
+    return sorted(out)
+
+
+def monitor_snapshot(requested, truth, log, result, client=None):
+    """The documented contract of KafkaClient._load_topic_partitions (client.py:412-424) on one finished lookup:
+    an entry for each requested topic; each list non-empty and equal to the partitions of the answer the result is
+    built from; no requested topic in error; and it fires exactly when an answer is good (not before, not later)."""
+    if not log:
+        return "no metadata request was sent"
+    if result is None:
+        if any(good_answer(e, requested) for e in log):
+            return "the broker answered every requested topic with partitions, yet the lookup did not finish"
+        return None
+    if not isinstance(result, dict):
+        return "lookup failed: %r" % (result,)
+    last = {t: (err, ps) for t, err, ps in log[-1]["answer"]}
+    for t in requested:
+        if t not in result:
+            return "snapshot has no entry for requested topic %r (requested %r, snapshot keys %r)" % (t, sorted(requested), sorted(result))
+        ps = list(result[t])
+        if not ps:
+            return "snapshot lists no partitions for %r" % (t,)
+        if t in last and (last[t][0] != 0 or not last[t][1]):
+            return "snapshot returned although the last answer has %r in error %r / without partitions" % (t, last[t][0])
+        if t in last and sorted(ps) != sorted(set(last[t][1])):
+            return "snapshot of %r is %r, the broker said %r" % (t, ps, sorted(last[t][1]))
+        if client is not None and client.metadata_error_for_topic(t) != 0:
+            return "metadata_error_for_topic(%r) = %r after the snapshot" % (t, client.metadata_error_for_topic(t))
+    for k, e in enumerate(log[:-1]):
+        if good_answer(e, requested) and not omitted_in([e], e["asked"]):
+            return "answer %d was complete, yet %d more request(s) followed" % (k, len(log) - 1 - k)
+    return None
+
+
+def lookup_round(requested, truth, script):
+    """KafkaClient._load_topic_partitions(*requested) against the scripted broker.
+    Returns (log, result-or-None-or-error-string, client)."""
+    from twisted.internet.task import Clock
+    clock = Clock()
+    log, res = [], []
+    client = scripted_client(clock, truth, script, log)
+    try:
+        d = client._load_topic_partitions(*requested)
+        d.addCallbacks(res.append, lambda f: res.append("%s: %s" % (type(f.value).__name__, f.value)))
+        pump(clock, lambda: bool(res))
+    except Exception as e:  # noqa: BLE001
+        res.append("raised %s: %s" % (type(e).__name__, e))
+    return log, (res[0] if res else None), client
+
+
+def gen_script(rnd, topics, kind):
+    """kind: echo | retry | extra | omit"""
+    topics = list(topics)
+    seed = rnd.randrange(1 << 16)
+    if kind == "echo":
+        return [{"seed": seed}]
+    if kind == "extra":
+        return [{"seed": seed, "extra": [["zz-not-asked", [rnd.randint(0, 9), 11]]]}]
+    if kind == "retry":
+        steps = []
+        for _ in range(rnd.choice([1, 1, 2, 3])):
+            st = {"seed": rnd.randrange(1 << 16)}
+            bad = rnd.sample(topics, rnd.randint(1, len(topics)))
+            for t in bad:
+                how = rnd.random()
+                if how < 0.4:
+                    st.setdefault("err", {})[t] = rnd.choice([5, 3, 9])
+                elif how < 0.6:
+                    st.setdefault("err_parts", {})[t] = 5                 # LEADER_NOT_AVAILABLE with partitions listed
+                else:
+                    st.setdefault("empty", []).append(t)
+            steps.append(st)
+        return steps + [{"seed": seed}]
+    # omit: a requested topic is missing from an answer
+    t = rnd.choice(topics)
+    r = rnd.random()
+    others = [x for x in topics if x != t]
+    if r < 0.4 or not others:
+        return [{"seed": seed, "omit": [t]}]                               # never answered
+    if r < 0.7:
+        return [{"seed": seed, "omit": [t]}, {"seed": seed + 1}]           # left out of the first answer only
+    return [{"seed": seed, "omit": [t], "err": {rnd.choice(others): 5}}, {"seed": seed + 1}]   # ... while another topic must be retried
+
+
+def normal_tp(tp):
+    """what a broker can say: each topic's distinct partition ids"""
+    return collections.OrderedDict((t, sorted(set(ps))) for t, ps in tp.items())
+
+
+def e2e_round(members, tp, leader_idx=0, order_seed=None, lookup=None, info=None):
     """One rebalance of a group whose members are real afkak Coordinator objects talking to a scripted
     group coordinator.  Requests are the bytes the real encoders produce (parsed here independently);
-    responses are bytes built here and decoded by the real decoders.  Returns
-    ({member_id: {topic: tuple}} as passed to on_join_complete, error-or-None)."""
+    responses are bytes built here and decoded by the real decoders.
+      leader_idx : which member the coordinator elects (index into members, modulo)
+      order_seed : None = the JoinGroup response lists the members in join order, else shuffled by that seed
+      lookup     : None = client._load_topic_partitions stubbed by its documented contract;
+                   a script (see script_answer) = the REAL KafkaClient._load_topic_partitions against that broker
+      info       : dict filled with what the lookup did (requests, snapshot) and whether the leader sent SyncGroup
+    Returns ({member_id: {topic: tuple}} as passed to on_join_complete, error-or-None)."""
     from twisted.internet import defer
     from twisted.internet.task import Clock
     from afkak._group import Coordinator
@@ -867,7 +1059,9 @@ def e2e_round(members, tp):
     joined, syncs = [], {}
     state = {"leader_bytes": None}
     ids = [m for m, _ in members]
-    leader = ids[0]
+    leader = ids[leader_idx % len(ids)]
+    info = info if info is not None else {}
+    info.update({"lookup_log": [], "snapshots": [], "leader": leader, "leader_sent_sync": False})
 
     def read_short(b, cur):
         (n,) = struct.unpack(">h", b[cur:cur + 2])
@@ -878,6 +1072,7 @@ def e2e_round(members, tp):
 
         def __init__(self, mid):
             self.mid = mid
+            self.real = scripted_client(clock, tp, lookup, info["lookup_log"]) if lookup is not None else None
 
         def _get_coordinator_for_group(self, group):
             return defer.succeed(object())
@@ -886,8 +1081,16 @@ def e2e_round(members, tp):
             return defer.succeed(None)
 
         def _load_topic_partitions(self, *topics):
-            # contract of client._load_topic_partitions: an entry, non-empty, for each requested topic
-            return defer.succeed({t: list(tp[t]) for t in topics})
+            if self.real is None:
+                # contract of client._load_topic_partitions: an entry, non-empty, for each requested topic
+                return defer.succeed({t: list(tp[t]) for t in topics})
+            d = self.real._load_topic_partitions(*topics)      # the real method, real metadata codec, real cache merge
+
+            def rec(r):
+                info["snapshots"].append({"requested": sorted(topics), "result": r if isinstance(r, dict) else repr(r),
+                                          "client": self.real})
+                return r
+            return d.addBoth(rec)
 
         def _send_request_to_coordinator(self, group, payload, encoder_fn, decode_fn, **kw):
             req = encoder_fn(client_id=b"cid", correlation_id=7, payload=payload)
@@ -922,6 +1125,7 @@ def e2e_round(members, tp):
                 syncs[self.mid] = (sent, d, decode_fn)
                 if self.mid == leader:
                     state["leader_bytes"] = sent
+                    info["leader_sent_sync"] = True
                 if len(syncs) == len(ids):
                     flush_syncs()
             else:
@@ -932,11 +1136,14 @@ def e2e_round(members, tp):
             pass
 
     def flush_joins():
+        listing = list(joined)
+        if order_seed is not None:
+            random.Random(order_seed).shuffle(listing)          # the coordinator lists the members in its own order
         for mid, _metadata, d, decode_fn in list(joined):
             body = struct.pack(">ihi", 7, 0, 1) + _short(b"consumer") + _short(leader.encode("utf-8")) + _short(mid.encode("utf-8"))
             if mid == leader:
-                body += struct.pack(">i", len(joined))
-                for m2, md2, _d, _f in joined:
+                body += struct.pack(">i", len(listing))
+                for m2, md2, _d, _f in listing:
                     body += _short(m2.encode("utf-8")) + struct.pack(">i", len(md2)) + md2
             else:
                 body += struct.pack(">i", 0)
@@ -960,10 +1167,18 @@ def e2e_round(members, tp):
         c = Member(Client(mid), "g", list(subs))
         c._heartbeat_looper.clock = clock
         coords.append(c)
+    info["leader_error"] = None
     try:
         for c in coords:
             d = c._join_and_sync()
-            d.addErrback(lambda f: errors.append(repr(f.value)))
+
+            def failed(f, c=c):
+                errors.append(repr(f.value))
+                if c.client.mid == leader:
+                    info["leader_error"] = f.value
+            d.addErrback(failed)
+        if lookup is not None:
+            pump(clock, lambda: bool(errors) or set(received) == set(ids))
         for c in coords:
             if c._heartbeat_looper.running:
                 c._heartbeat_looper.stop()
